@@ -37,6 +37,10 @@ def validators(ctx, ir):
             ctx.vinfo, ctx.vgaps = validators_extract.regenerate(fw.REPO, fw.LEAN, ir.ix)
         except Exception as e:
             ctx.vinfo, ctx.vgaps = None, ["validators translator crashed: %r" % (e,)]
+    try:
+        ASCII_SHAPE[0] = bool(ctx.vinfo["patcheck"]["ascii"])
+    except Exception:
+        ASCII_SHAPE[0] = False
     return ctx.vinfo, ctx.vgaps
 
 
@@ -76,9 +80,10 @@ class ValidGen2(bindgen.ValidGen):
     """as bindgen.ValidGen; free strings carry XML-special characters (both quote kinds, markup, line feeds), pattern
     values use every XSD space"""
 
-    def __init__(self, ir, rng, max_depth=3, special=True):
+    def __init__(self, ir, rng, max_depth=3, special=True, nonfinite=False):
         super().__init__(ir, rng, max_depth)
         self.special = special
+        self.nonfinite = nonfinite      # also draw INF, -INF, NaN for unbounded xs:double / xs:float members (C02)
 
     def simple_value(self, tname):
         rng = self.rng
@@ -104,6 +109,8 @@ class ValidGen2(bindgen.ValidGen):
                 hi = float(b["maxInclusive"]) if "maxInclusive" in b else (float(b["maxExclusive"]) if "maxExclusive" in b else None)
             cands = [1e-05, 2e-06, 1e-07, 1e16, 3e-09, 1.5e-05, 2.5e-17, 1e22, -1e-05, -2e-06, -1e16, 123456789.125, 7e-12]
             cands = [v for v in cands if (lo is None or v > lo) and (hi is None or v < hi)]
+            if self.nonfinite and lo is None and hi is None and base != "xs:decimal" and rng.random() < 0.08:
+                return rng.choice([float("inf"), float("-inf"), float("nan")])
             if cands:
                 return rng.choice(cands)
         return super().simple_value(tname)
@@ -187,6 +194,32 @@ def boundary_values(rng, st, info, n_valid=3):
             seen.add(k)
             res.append((v, tag))
     return res
+
+
+def space_class(v):
+    """which reading of \\s a string needs to be taken for white space: None (XSD spaces only), "vt-ff" (only \\v / \\f
+    besides: still Python spaces under re.ASCII), "unicode" (a space of str.isspace outside ASCII \\s)"""
+    if not isinstance(v, str):
+        return None
+    odd = [c for c in v if c.isspace() and c not in " \t\n\r"]
+    if not odd:
+        return None
+    return "vt-ff" if all(c in "\x0b\x0c" for c in odd) else "unicode"
+
+
+ASCII_SHAPE = [False]     # does gds_validate_simple_patterns pass re.ASCII (set by `validators` from the extracted shape)
+
+
+def space_key(v):
+    """finding a non-XSD space belongs to.  On today's tree (no re.ASCII) every such value, \\v and \\f included, is
+    C03:pattern-unicode-space; C03:pattern-ascii-vt-ff is what would remain after the proposed repair and is only keyed
+    on a tree whose call carries re.ASCII"""
+    k = space_class(v)
+    if k is None:
+        return None
+    if k == "vt-ff" and ASCII_SHAPE[0]:
+        return "C03:pattern-ascii-vt-ff"
+    return "C03:pattern-unicode-space"
 
 
 def is_xml_text(s):
@@ -325,11 +358,18 @@ def simple_stream(ctx, ir, mod, info, pid, n_valid=3, holders_per_type=2):
             if r.get("xsd") != p["libxml2"]:
                 ctx.disagree("xsd-value-space", case, p["libxml2"], r)
         # (c) the property on the real code
-        if p["libxml2"] is None or wrong_base or p["real"] not in (True, False):
+        if wrong_base or p["real"] not in (True, False):
+            continue
+        if p["libxml2"] is None:
+            # a string no XML document can carry (\\v, \\f, U+001C..): the Lean value space is the oracle
+            if pid == "C03" and isinstance(p["value"], str) and p["real"] is True and r.get("xsd") is False:
+                ctx.fail(space_key(p["value"]) or "C03:facet-accepted:%s:%s" % (p["type"], p["tag"].split(":")[0]),
+                         "validate_%s accepts %r, which is outside the value space of %s (not even an XML string)"
+                         % (p["type"], p["value"], p["type"]), case)
             continue
         if pid == "C03" and p["libxml2"] is False and p["real"] is True:
-            if not r.get("plain", True):
-                key = "C03:pattern-unicode-space"
+            if space_key(p["value"]):
+                key = space_key(p["value"])
             elif not r.get("range", True):
                 key = "C03:builtin-int-range"
             else:
